@@ -1,6 +1,10 @@
 """Fixed case counts per tier (counts, not wall budgets: one seed explores the same cases)."""
 
 TIERS = {
+    "C07": {
+        "quick": {"cases": 3000, "min_steps": 20, "max_steps": 60, "wall": 900, "echo": 32, "shrink_s": 25},
+        "thorough": {"cases": 80000, "min_steps": 20, "max_steps": 80, "wall": 7200, "echo": 128, "shrink_s": 40},
+    },
     "C17": {
         "quick": {"cases": 24000, "configs": 4, "wall": 600},
         "thorough": {"cases": 200000, "configs": 16, "wall": 7200},
@@ -49,7 +53,30 @@ def _faults_c01(wstats, clock, probes, sites):
     return out
 
 
+def _faults_c07(wstats, clock, probes, sites):
+    out = {}
+    for k, v in probes.items():
+        if k.startswith("fault:") or k.startswith("hook_fired:") or k.startswith("hook_reentered:") or k.startswith("raised_in:"):
+            out[k] = v
+    return out
+
+
 META = {
+    "C07": {
+        "rule": "cases = seeded histories of 20-60 public operations over a shared pool of <=12 schemas and <=24 retained "
+                "caller-owned containers, interleaving declarer / refiner / combiner / substitutor / validator / generator / "
+                "printer / reader with the saboteur (late mutation of containers handed to d42) and the hook owner "
+                "(custom-type hooks that re-enter the API or raise mid-operation). After every step all invariants are "
+                "evaluated (I1 observations of all pooled schemas, I2 snapshots of all retained values, I3 re-execution of an "
+                "earlier operation). evaluations = operations executed. distinct+nontrivial = distinct (sequence of op kinds, "
+                "set of fault kinds fired).",
+        "real_vs_stub": {"real": REAL + ["module-level visitor singletons", "d42.custom_type.CustomSchema hooks (forwarding type registered through register_type)"], "stub": STUB},
+        "assumptions": [
+            "mid-operation interleaving and crashes are injected only at the points the public API exposes (custom-type hooks); thread pre-emption / async exceptions are deliberately out (DESIGN 2.10)",
+            "exception *types* are not judged (C10/C12), only purity: observations, argument snapshots, repeatability",
+        ],
+        "fault_kinds": _faults_c07,
+    },
     "C17": {
         "rule": "cases = (seed k of every SeedType, sequence of 1-8 schema specs without unfixed uuid4/datetime/date); "
                 "each case is executed in every interpreter configuration (exec'd interpreters with distinct "
